@@ -38,16 +38,16 @@ Proof.
   unfold ra_ok, att_ok in U. apply andb_prop in U as [_ U]. apply andb_prop in U as [U U3]. apply andb_prop in U as [U1 _].
   unfold ap_phase in P. destruct A as [role alive multi sid tok pc stack R notified parked]. cbn in *.
   destruct pc; cbn in P, U1, U3 |- *; try discriminate P;
-    destruct (r_am R), multi, (uni_role role); cbn in *; try discriminate; reflexivity.
+    destruct (r_am R), (r_single R), multi, (uni_role role); cbn in *; try discriminate; reflexivity.
 Qed.
 
 Lemma commit_in_ftr A : (a_pc A = R12 \/ a_pc A = V4) -> fn_of (a_pc A) = FTR.
 Proof. intros [->| ->]; reflexivity. Qed.
 
-Lemma micro_r2 c me A S o : micro c me A S = Some o -> a_pc A = R2 -> r_p (a_r (o_a o)) = gpos S (a_sid A).
+Lemma micro_r2 c me A S o : micro c me A S = Some o -> (a_pc A = R2 \/ a_pc A = R2n) -> r_p (a_r (o_a o)) = gpos S (a_sid A).
 Proof.
   intros H E. destruct A as [role alive multi sid tok pc stack R notified parked].
-  cbn in E. subst pc. unfold gpos. micro_cases H; reflexivity.
+  cbn in E. unfold gpos. destruct E as [-> | ->]; micro_cases H; reflexivity.
 Qed.
 
 Definition AP (s : state) : Prop :=
@@ -108,20 +108,20 @@ Proof.
     destruct (spur_shape _ _ _ _ M) as (N0 & Hr & Ha & Hm & Hs & Hc & Hp & _).
     pose proof (ctl_mreach c fut s0 R a A EA) as QA.
     assert (TOP : o_ntf o = [] /\ (forall sg, gpos (o_s o) sg = gpos (sh s0) sg) /\
-                  (ap_phase (o_a o) = true -> False)).
+                  (ap_phase (o_a o) = true -> r_p (a_r (o_a o)) = gpos (sh s0) (a_sid (o_a o)))).
     { clear -M QA. destruct A as [role alive multi sid tok pc stack R0 notified parked].
       unfold micro_spur, ok in M. cbn in M. unfold ap_phase.
       destruct pc; try discriminate M.
       - injection M as <-. cbn. repeat split; auto. discriminate.
       - destruct (r_am R0) eqn:EA; [discriminate|].
         unfold use_obj, bad, drop_opt, drop_val in M. cbn in M.
-        break_hyp M; injection M as <-; cbn; repeat split; auto; rewrite EA; discriminate. }
+        break_hyp M; injection M as <-; cbn; repeat split; auto. }
     destruct TOP as (NT & EG & NAP).
     unfold apply1 in *. rewrite N0, NT in *.
     change (notify_all [] (put (ags s0) a (o_a o))) with (put (ags s0) a (o_a o)) in *.
     cbn [ags sh] in *. rewrite (len_put_same _ _ _ _ EA) in Small. specialize (I Small).
     intros b B EB PB. cbn [ags sh] in *. rewrite EG. rewrite get_put in EB. destruct (N.eqb b a) eqn:E.
-    + injection EB as <-. exfalso. auto.
+    + injection EB as <-. apply NAP. exact PB.
     + apply (I b B EB PB).
   - (* tick *)
     intros s0 R I Small. exact (I Small).
